@@ -93,6 +93,7 @@ type WorkerOut struct {
 	Wall       float64            `json:"wall"`
 	Truncated  bool               `json:"truncated"`
 	Nontrivial uint64             `json:"nontrivial_runs"`
+	SitesHit   []int32            `json:"sites_hit"`
 }
 
 // Worker executes runs i ≡ shard (mod of) of a batch and writes its summary to outPath; distinct
@@ -104,6 +105,7 @@ func Worker(e Engine, tier string, seed uint64, shard, of int, runs uint64, know
 	nt := map[uint64]struct{}{}
 	st := map[uint64]struct{}{}
 	seenSig := map[string]bool{}
+	sitesHit := map[int32]bool{}
 	prog, _ := os.Create(outPath + ".progress")
 	var dump *os.File
 	if d := os.Getenv("VERIF_TRACE_DUMP"); d != "" {
@@ -124,6 +126,9 @@ func Worker(e Engine, tier string, seed uint64, shard, of int, runs uint64, know
 		plan := e.NewPlan(r, tier, i)
 		res := e.Exec(plan)
 		out.Runs++
+		for _, sidx := range SiteSnapshot() {
+			sitesHit[sidx] = true
+		}
 		out.LogHash += Mix(res.Trace, "log", i)
 		if dump != nil {
 			fmt.Fprintf(dump, "%d %016x\n", i, res.Trace)
@@ -240,6 +245,10 @@ func Worker(e Engine, tier string, seed uint64, shard, of int, runs uint64, know
 		os.Remove(outPath + ".progress")
 	}
 	out.Wall = time.Since(start).Seconds()
+	for sidx := range sitesHit {
+		out.SitesHit = append(out.SitesHit, sidx)
+	}
+	sort.Slice(out.SitesHit, func(a, b int) bool { return out.SitesHit[a] < out.SitesHit[b] })
 	if err := writeHashes(outPath+".nt", nt); err != nil {
 		return err
 	}
@@ -405,6 +414,7 @@ func Check(e Engine, o CheckOpts) int {
 	agg := &WorkerOut{Skipped: map[string]uint64{}, Faults: map[string]int{}, Probes: map[string]int{}, Extra: map[string]float64{}, Known: map[string]uint64{}}
 	nt := map[uint64]struct{}{}
 	st := map[uint64]struct{}{}
+	allSites := map[int32]bool{}
 	for k := range procs {
 		err := procs[k].cmd.Wait()
 		procs[k].log.Close()
@@ -450,6 +460,9 @@ func Check(e Engine, o CheckOpts) int {
 			agg.Known[k2] += v
 		}
 		agg.Found = append(agg.Found, wo.Found...)
+		for _, sidx := range wo.SitesHit {
+			allSites[sidx] = true
+		}
 		for _, s := range wo.Samples {
 			if len(agg.Samples) < 4 {
 				agg.Samples = append(agg.Samples, s)
@@ -569,6 +582,9 @@ func Check(e Engine, o CheckOpts) int {
 			"instrumentation":        o.Instrument,
 			"known_findings_seen":    agg.Known,
 			"engine":                 m.Engine,
+			"library_sites_hit":      len(allSites),
+			"library_sites_total":    len(SiteNamesFn()),
+			"library_sites_never_hit": neverHit(allSites),
 		},
 		"assumptions": m.Assumptions,
 		"wall_s":      wall,
@@ -637,6 +653,29 @@ func ReplayFile(e Engine, path string) int {
 		fmt.Printf("  other: %s: %s\n", v.Sig, v.Detail)
 	}
 	return 2
+}
+
+// SiteSnapshot and SiteNamesFn are set by main (they live in the hook package, which core does not import).
+var SiteSnapshot = func() []int32 { return nil }
+var SiteNamesFn = func() []string { return nil }
+
+func neverHit(hit map[int32]bool) []string {
+	var out []string
+	for i, n := range SiteNamesFn() {
+		marker := false
+		for _, suf := range []string{".node", ".stmt", ".expr", ".literal", ".source"} {
+			if strings.HasSuffix(n, suf) {
+				marker = true // empty interface-marker methods, never called
+			}
+		}
+		if !hit[int32(i)] && !marker && !strings.Contains(n, "<pkg-init>") && !strings.HasSuffix(n, ":init") {
+			out = append(out, n)
+		}
+	}
+	if len(out) > 400 {
+		out = out[:400]
+	}
+	return out
 }
 
 func stallLimit() time.Duration {
